@@ -57,7 +57,12 @@ fn judge_case(c: &Case) -> Outcome {
         (None, Res::Err(e)) => Outcome::fail("spurious-reject", format!("model: realisable (size {} align {}), pyxis: {e}", lay.size, lay.align)),
         (Some(r), Res::Ok(_)) => Outcome::fail(&format!("spurious-accept:{r:?}"), format!("model: not realisable ({r:?}), pyxis accepted it")),
     };
-    o.class(&class)
+    let o = o.class(&class);
+    if c.t.singleton.is_some() || c.t.copyable || c.t.cloneable {
+        o.class("with-layout-neutral-attribute")
+    } else {
+        o
+    }
 }
 
 fn show(c: &Case) -> Value {
@@ -106,7 +111,7 @@ impl Prop for Random {
         "C03/random".into()
     }
     fn rule(&self) -> String {
-        "single-type descriptions: 0..8 fields over all built-in scalars, pointers, (nested, zero-length) arrays, unknown<N>; per field address none/at cursor/after a gap/misaligned/overlapping; size none/natural/larger/smaller/odd; align none/pow2/non-pow2/0; packed; vftable block; widths 4 and 8; numbers up to 2^16. Oracle: build Ok iff reference model says realisable (both directions), plus resolved size/align equal the model's. Non-trivial: >=2 fields or >=1 attribute; classes report the deciding condition".into()
+        "single-type descriptions: 0..8 fields over all built-in scalars, pointers, (nested, zero-length) arrays, unknown<N>; per field address none/at cursor/after a gap/misaligned/overlapping; size none/natural/larger/smaller/odd; align none/pow2/non-pow2/0; packed; vftable block; layout-neutral attributes (singleton, copyable, cloneable) on one type in four; widths 4 and 8; numbers up to 2^16. Oracle: build Ok iff reference model says realisable (both directions), plus resolved size/align equal the model's. Non-trivial: >=2 fields or >=1 attribute; classes report the deciding condition".into()
     }
     fn gen(&self, t: &mut Tape) -> Case {
         let w = if t.chance(1, 2) { 8 } else { 4 };
@@ -202,6 +207,10 @@ impl Prop for Random {
                 None
             },
             fields,
+            // attributes that say nothing about the layout must not change the verdict
+            singleton: if t.chance(1, 4) { Some(Num { v: 0x1000 + 4 * t.small(4096) as i128, sp: t.below(6) as u8 }) } else { None },
+            copyable: t.chance(1, 6),
+            cloneable: t.chance(1, 6),
             ..Default::default()
         };
         Case { t: td, w }
